@@ -174,3 +174,211 @@ Proof. intros I L Hn Hp Hm Hr Hh. rewrite listing_obs, (listed_entry s c (inv_no
 
 Lemma dm_mode s c d : optN_eqb (aget c (dmobs s)) (Some (mode_code d)) = ipfs_has s c d.
 Proof. unfold dmobs, ipfs_has. rewrite aget_map_snd. destruct (aget c (ipfs s)) as [[|]|]; destruct d; reflexivity. Qed.
+
+(* ---------- the invariant ---------- *)
+Record FI (s : st) (x : sp6) : Prop := {
+  f_inv : Inv s; f_linv : LInv false s; f_minv : MInv s; f_np : (0 < npin s)%nat; f_D : dispatched s;
+  f_pinset : s6_pinset x = pinset s; f_dm : s6_dm x = dmobs s; f_inf : s6_inf x = infobs s;
+  f_all : forall l, s6_all x = Some l -> l = status_all_obs s 0;
+  (* the core: failed <-> the tracked operation is a pin / unpin operation, in error once no longer live *)
+  f_g1 : forall c, failed_op s c = true -> In c (s6_failed x);
+  f_g2 : forall c, In c (s6_failed x) -> exists o, aget c (table s) = Some o /\ otyp o <> ORemote }.
+
+Lemma in_setf c c' (b : bool) fl : In c' (if b then c :: remove_c c fl else remove_c c fl) <-> (c' = c /\ b = true) \/ (In c' fl /\ c' <> c).
+Proof. destruct b; cbn [In]; rewrite in_remove_c; split; intros H; try tauto.
+  - destruct H as [H|H]; [left; split; auto|tauto].
+  - destruct H as [[H _]|H]; [left; auto|tauto].
+  - destruct H as [[_ H]|H]; [discriminate|tauto]. Qed.
+
+Lemma was_unexp_ok s x c p : Inv s -> LInv false s -> s6_pinset x = pinset s -> s6_dm x = dmobs s ->
+  (forall l, s6_all x = Some l -> l = status_all_obs s 0) ->
+  aget c (table s) = None -> aget c (pinset s) = Some p -> pmeta p = false -> premote p = false -> ipfs_has s c (pdirect p) = false ->
+  was_unexp x c = true.
+Proof. intros I L Hps Hdm Hall Hn Hp Hm Hr Hh. unfold was_unexp. destruct (s6_all x) as [l|] eqn:A.
+  - rewrite (Hall l eq_refl), (listing_unexpected s c p I L Hn Hp Hm Hr Hh). reflexivity.
+  - rewrite Hps, Hp, Hm, Hr, Hdm, dm_mode, Hh. reflexivity. Qed.
+
+Section FStep.
+Variables (n : N) (fs : list N) (s : st) (x : sp6) (e : event).
+Hypothesis M : FI s x.
+Hypothesis Hst : ev_stable s e.
+Hypothesis Hord : ord_ok s e.
+Let s' := fst (step s e).
+Let r := snd (step s e).
+Let o := model_obs n s' r fs.
+Let x' := sp6_event x e o.
+Let I := f_inv _ _ M.
+Let L := f_linv _ _ M.
+
+Lemma fs_inv : Inv s'. Proof. apply step_inv, I. Qed.
+Lemma fs_linv : LInv false s'. Proof. apply step_linv; [apply I | apply L | discriminate]. Qed.
+
+Lemma fs_ret : N.eqb (o_ret o) 1 = match r with RFull => true | ROk => false end.
+Proof. unfold o, model_obs, o_ret. destruct r; reflexivity. Qed.
+
+(* every cid other than the one the event addresses keeps its operation *)
+Lemma fs_other c : match e with ETrack p => c <> pcid p | EUntrack c0 => c <> c0 | ERecover c0 => c <> c0 | EComplete c0 _ => c <> c0
+                           | EDaemon _ _ => True | ERecoverAll _ => False end -> opframe s s' c.
+Proof. intros H. unfold s'. rewrite step_fst. pose proof (step_raw_inv s e I) as I1.
+  eapply opframe_trans; [|apply dispatch_frame; exact I1]. destruct e as [p|c0|c0|ord|c0 f|c0 m]; cbn [step_raw fst].
+  - destruct (track_effect s p I) as (_ & _ & _ & Fo & _). auto.
+  - destruct (untrack_effect s c0 I) as (_ & _ & _ & Fo & _). auto.
+  - apply recover_with_frame; auto. apply (li_keyed _ _ L).
+  - contradiction.
+  - destruct (complete_effect s c0 f I) as (_ & _ & Fo & _). apply Fo. auto.
+  - apply opframe_eq. reflexivity. Qed.
+
+Lemma g_frame (fl : list N) : (forall c, In c fl <-> In c (s6_failed x)) -> (forall c, opframe s s' c) ->
+  (forall c, failed_op s' c = true -> In c fl) /\ (forall c, In c fl -> exists o0, aget c (table s') = Some o0 /\ otyp o0 <> ORemote).
+Proof. intros Hfl Hfr. split; intros c H.
+  - apply Hfl. apply (f_g1 _ _ M). now rewrite <- (failed_op_frame s s' c (Hfr c)).
+  - apply Hfl in H. eapply nonremote_frame; [apply Hfr | apply (f_g2 _ _ M c H)]. Qed.
+
+(* the update `setf c0 b` when c0's operation afterwards is as b says *)
+Lemma g_setf c0 (b : bool) : (forall c, c <> c0 -> opframe s s' c) ->
+  (failed_op s' c0 = b) -> (b = true -> exists o0, aget c0 (table s') = Some o0 /\ otyp o0 <> ORemote) ->
+  let fl := if b then c0 :: remove_c c0 (s6_failed x) else remove_c c0 (s6_failed x) in
+  (forall c, failed_op s' c = true -> In c fl) /\ (forall c, In c fl -> exists o0, aget c (table s') = Some o0 /\ otyp o0 <> ORemote).
+Proof. intros Hfr Hb Hnr fl. split; intros c H; unfold fl in *; [apply in_setf | apply in_setf in H].
+  - destruct (N.eq_dec c c0) as [->|Hn]; [left; split; auto; congruence|]. right. split; auto.
+    apply (f_g1 _ _ M). now rewrite <- (failed_op_frame s s' c (Hfr c Hn)).
+  - destruct H as [[-> Hbt]|[H Hn]]; [auto|]. eapply nonremote_frame; [apply (Hfr c Hn) | apply (f_g2 _ _ M c H)]. Qed.
+
+Lemma fs_failed :
+  (forall c, failed_op s' c = true -> In c (s6_failed x')) /\
+  (forall c, In c (s6_failed x') -> exists o0, aget c (table s') = Some o0 /\ otyp o0 <> ORemote).
+Proof. unfold x'. case_eq e; [intros p Ee|intros c0 Ee|intros c0 Ee|intros ord Ee|intros c0 f Ee|intros c0 m Ee]; cbn [sp6_event s6_failed].
+  - (* Track *) destruct (pmeta p) eqn:Hm.
+    + apply g_frame; [tauto|]. intros c. destruct (N.eq_dec c (pcid p)) as [->|Hn]; [|apply fs_other; rewrite Ee; exact Hn].
+      unfold s'. rewrite Ee, step_fst. eapply opframe_trans; [|apply dispatch_frame; apply (step_raw_inv s (ETrack p) I)].
+      cbn [step_raw]. destruct (track_effect s p I) as (_ & _ & _ & _ & Ft). now rewrite Hm in Ft.
+    + rewrite fs_ret. apply (g_setf (pcid p)); [intros c Hn; apply fs_other; rewrite Ee; exact Hn| |].
+      * unfold s', r. rewrite Ee. destruct (premote p) eqn:Hr.
+        -- destruct (track_remote_op s p I Hm Hr) as [R (o0 & Ho & T & P)]. rewrite R. unfold failed_op. now rewrite Ho, T.
+        -- destruct (instr_reported s (ETrack p) (pcid p) OPin I) as (o0 & Ho & T & R); [auto|].
+           destruct (snd (step s (ETrack p))); [apply (failed_op_live _ _ _ Ho R) | apply (failed_op_err _ _ _ Ho R); congruence].
+      * unfold s', r. rewrite Ee. destruct (premote p) eqn:Hr.
+        -- destruct (track_remote_op s p I Hm Hr) as [R _]. rewrite R. discriminate.
+        -- destruct (instr_reported s (ETrack p) (pcid p) OPin I) as (o0 & Ho & T & R); [auto|]. intros _. exists o0. split; auto. congruence.
+  - (* Untrack *) rewrite fs_ret. apply (g_setf c0); [intros c Hn; apply fs_other; rewrite Ee; exact Hn| |].
+    + unfold s', r. rewrite Ee. destruct (instr_reported s (EUntrack c0) c0 OUnpin I) as (o0 & Ho & T & R); [auto|].
+      destruct (snd (step s (EUntrack c0))); [apply (failed_op_live _ _ _ Ho R) | apply (failed_op_err _ _ _ Ho R); congruence].
+    + unfold s', r. rewrite Ee. destruct (instr_reported s (EUntrack c0) c0 OUnpin I) as (o0 & Ho & T & R); [auto|]. intros _. exists o0. split; auto. congruence.
+  - (* Recover *) rewrite fs_ret.
+    assert (Fr : forall c, c <> c0 -> opframe s s' c) by (intros c Hn; apply fs_other; rewrite Ee; exact Hn).
+    pose proof (recover_with_inv s c0 (status_of s c0) I) as I1.
+    destruct (recover_with_c0 s c0 (status_of s c0) I (li_keyed _ _ L c0)) as (A & B & C).
+    assert (Es : s' = dispatch (fst (recover_with s c0 (status_of s c0)))) by (unfold s'; rewrite Ee, step_fst; reflexivity).
+    assert (Er : r = snd (recover_with s c0 (status_of s c0))) by (unfold r; rewrite Ee, step_snd; reflexivity).
+    assert (Fd : opframe (fst (recover_with s c0 (status_of s c0))) s' c0) by (rewrite Es; apply dispatch_frame; exact I1).
+    destruct r eqn:Hr.
+    + (* nil: the record is left alone *) split; intros c H.
+      * destruct (N.eq_dec c c0) as [->|Hn]; [|apply (f_g1 _ _ M); now rewrite <- (failed_op_frame s s' c (Fr c Hn))].
+        apply (f_g1 _ _ M). apply A; auto. now rewrite <- (failed_op_frame _ _ _ Fd).
+      * destruct (N.eq_dec c c0) as [->|Hn]; [|eapply nonremote_frame; [apply (Fr c Hn) | apply (f_g2 _ _ M c H)]].
+        eapply nonremote_frame; [exact Fd | apply C, (f_g2 _ _ M c0 H)].
+    + destruct (B (eq_sym Er)) as (o0 & Ho & P & T & _).
+      assert (Hnr : otyp o0 <> ORemote) by (destruct T as [T|T]; rewrite T; discriminate).
+      apply (g_setf c0 true); auto.
+      * rewrite (failed_op_frame _ _ _ Fd). apply (failed_op_err _ _ _ Ho P Hnr).
+      * intros _. eapply nonremote_frame; [exact Fd | eauto].
+  - (* RecoverAll *)
+    assert (Es : s' = dispatch (fst (recover_all s ord))) by (unfold s'; rewrite Ee, step_fst; reflexivity).
+    assert (Er : r = snd (recover_all s ord)) by (unfold r; rewrite Ee, step_snd; reflexivity).
+    pose proof (recover_list_inv (order_by ord (status_all s 0)) s I) as I1. fold (recover_all s ord) in I1.
+    assert (Fd : forall c, opframe (fst (recover_all s ord)) s' c) by (intros c; rewrite Es; apply dispatch_frame; exact I1).
+    pose proof (status_all0_nodup s (inv_nodup _ I) (li_pnodup _ _ L)) as Nd.
+    assert (Xall : forall c' y, In (c', y) (order_by ord (status_all s 0)) -> x_ok s c' y).
+    { intros c' y Hin. apply order_by_in in Hin; auto. apply entry_xok. apply status_all0_in; auto. apply I. apply L. }
+    assert (Hfail : forall c, failed_op s' c = true -> failed_op s c = true \/ (r = RFull /\ fresh_fail s (fst (recover_all s ord)) c)).
+    { intros c H. rewrite (failed_op_frame _ _ _ (Fd c)) in H. rewrite Er.
+      apply (recover_list_failed (order_by ord (status_all s 0)) s I L); auto. now apply order_by_nodup. }
+    assert (Hkeep : forall c, In c (s6_failed x) -> exists o0, aget c (table s') = Some o0 /\ otyp o0 <> ORemote).
+    { intros c H. eapply nonremote_frame; [apply Fd|]. apply recover_list_nonremote; auto; [apply (li_keyed _ _ L) | apply (f_g2 _ _ M c H)]. }
+    rewrite fs_ret. destruct r eqn:Hr.
+    + split; [|exact Hkeep]. intros c H. destruct (Hfail c H) as [H0|[H0 _]]; [now apply (f_g1 _ _ M)|discriminate].
+    + split; intros c H.
+      * apply in_or_app. destruct (Hfail c H) as [H0|[_ (Hn & (p & Hp & Hm & Hrm & Hh) & (o1 & Ho1 & T1 & P1))]]; [right; now apply (f_g1 _ _ M)|]. left.
+        assert (Hl : aget c (status_all_obs s' 0) = Some 4).
+        { destruct (dispatch_entry _ _ _ I1 Ho1) as (o2 & Ho2 & T2 & P2). rewrite <- Es in Ho2.
+          apply (listing_of_pin_error s' c o2 fs_inv fs_linv Ho2); [congruence|]. destruct P2 as [P2|[P2 _]]; congruence. }
+        apply filter_In. split.
+        { unfold o, model_obs, o_all. apply aget_some_in in Hl. apply in_map_iff. exists (c, 4). auto. }
+        unfold o at 1. unfold model_obs at 1, o_all at 1. rewrite Hl. cbn [optN_eqb N.eqb Pos.eqb andb]. rewrite andb_true_r.
+        apply andb_true_iff. split.
+        -- apply negb_true_iff, memN_false. pose proof Hord as Hord'. rewrite Ee in Hord'. cbn [ord_ok] in Hord'. apply (Hord' (eq_sym Er) c).
+           ++ now rewrite <- (failed_op_frame _ _ _ (Fd c)).
+           ++ unfold failed_op. now rewrite Hn.
+        -- apply (was_unexp_ok s x c p I L (f_pinset _ _ M) (f_dm _ _ M) (f_all _ _ M)); auto.
+      * apply in_app_or in H. destruct H as [H|H]; [|now apply Hkeep].
+        apply filter_In in H. destruct H as [_ H]. rewrite !andb_true_iff in H. destruct H as [[_ H] _].
+        unfold o in H. unfold model_obs, o_all in H.
+        destruct (aget c (status_all_obs s' 0)) as [b|] eqn:Hl; [|discriminate]. cbn in H. apply N.eqb_eq in H. subst b.
+        destruct (listing_pin_error s' c fs_inv fs_linv Hl) as (o0 & Ho & T & _). exists o0. split; auto. congruence.
+  - (* Complete *)
+    assert (Fr : forall c, c <> c0 -> opframe s s' c) by (intros c Hn; apply fs_other; rewrite Ee; exact Hn).
+    assert (Es : s' = dispatch (complete s c0 f)) by (unfold s'; rewrite Ee, step_fst; reflexivity).
+    pose proof (complete_inv s c0 f I) as I1.
+    assert (Fd : opframe (complete s c0 f) s' c0) by (rewrite Es; apply dispatch_frame; exact I1).
+    rewrite (f_inf _ _ M). destruct (inflight_of (infobs s) c0) as [[k d]|] eqn:Hin.
+    2:{ apply g_frame; [tauto|]. intros c. destruct (N.eq_dec c c0) as [->|Hn]; [|auto].
+        destruct (complete_effect s c0 f I) as (_ & _ & _ & [[E _]|(cl & o0 & Hcl & Hc & _)]); [now rewrite E in Fd|].
+        exfalso. exact (inflight_none s c0 Hin cl Hcl Hc). }
+    destruct (inflight_kd s c0 k d I Hin) as (cl1 & o1 & Hcl1 & Hc1 & Ho1 & Hty1 & Hk0 & Hk1).
+    destruct (complete_effect s c0 f I) as (_ & _ & _ & [[_ Hno]|(cl & o0 & Hcl & Hc & Ho0 & _ & _ & Hty & _ & Hres)]); [exfalso; exact (Hno cl1 Hcl1 Hc1)|].
+    rewrite Ho1 in Ho0. injection Ho0 as <-. assert (Hk : ckd cl = ckd cl1) by (apply kind_type_inj; congruence). rewrite Hk in Hres.
+    (* the operation is remote exactly when the script says the pin is remote *)
+    assert (Hrem : otyp o1 = ORemote -> remote_pin x c0 = true).
+    { intros T. pose proof (li_lab _ _ L c0) as Lc. unfold lab, ty in Lc. rewrite Ho1 in Lc. cbn in Lc. rewrite T in Lc.
+      unfold remote_pin. rewrite (f_pinset _ _ M). destruct (aget c0 (last s)) as [[p|]|] eqn:Hla.
+      - destruct Lc as [Lp Lc]. rewrite Lp. destruct (pmeta p) eqn:Hm.
+        + exfalso. apply (f_minv _ _ M c0 p Hla Hm). unfold ty. rewrite Ho1. cbn. now rewrite T.
+        + destruct (premote p); [reflexivity|]. destruct Lc; congruence.
+      - destruct Lc as [_ [Lc|[Lc _]]]; congruence.
+      - destruct Lc; congruence. }
+    assert (Hunp : remote_pin x c0 = true -> otyp o1 <> OUnpin).
+    { intros R T. unfold remote_pin in R. rewrite (f_pinset _ _ M) in R. destruct (aget c0 (pinset s)) as [p|] eqn:Hp; [|discriminate].
+      apply andb_true_iff in R. destruct R as [Rm Rr]. apply negb_true_iff in Rm.
+      pose proof (li_lab _ _ L c0) as Lc. unfold lab, ty in Lc. rewrite Ho1 in Lc. cbn in Lc. rewrite T in Lc.
+      destruct (aget c0 (last s)) as [[p'|]|].
+      - destruct Lc as [Lp Lc]. rewrite Hp in Lp. injection Lp as <-. rewrite Rm, Rr in Lc. destruct Lc as [Lc|[Lc _]]; congruence.
+      - destruct Lc as [Lp _]. congruence.
+      - destruct Lc; congruence. }
+    assert (Hfail_case : forall o', aget c0 (table (complete s c0 f)) = Some o' -> otyp o' = otyp o1 -> oph o' = PError -> otyp o1 <> ORemote ->
+              (forall c, failed_op s' c = true -> In c (c0 :: remove_c c0 (s6_failed x))) /\
+              (forall c, In c (c0 :: remove_c c0 (s6_failed x)) -> exists o2, aget c (table s') = Some o2 /\ otyp o2 <> ORemote)).
+    { intros o' Ho' T' P' Hnr. apply (g_setf c0 true); auto.
+      - rewrite (failed_op_frame _ _ _ Fd). apply (failed_op_err _ _ _ Ho' P'). congruence.
+      - intros _. eapply nonremote_frame; [exact Fd|]. exists o'. split; auto. congruence. }
+    assert (Hclean_case : aget c0 (table (complete s c0 f)) = None ->
+              (forall c, failed_op s' c = true -> In c (remove_c c0 (s6_failed x))) /\
+              (forall c, In c (remove_c c0 (s6_failed x)) -> exists o2, aget c (table s') = Some o2 /\ otyp o2 <> ORemote)).
+    { intros Hn. apply (g_setf c0 false); auto; [|discriminate]. rewrite (failed_op_frame _ _ _ Fd). unfold failed_op. now rewrite Hn. }
+    unfold call_outcome in Hres. destruct f; cbn [snd] in Hres.
+    + (* fault *) destruct Hres as (o' & Ho' & T' & P').
+      destruct (N.eqb k 1 && remote_pin x c0) eqn:Cnd.
+      * apply andb_true_iff in Cnd. destruct Cnd as [Ck Cr]. apply N.eqb_eq in Ck.
+        assert (T1 : otyp o1 = ORemote).
+        { destruct (ckd cl1) eqn:Kd; cbn in Hty1; auto; [destruct (Hk0 eq_refl) as [K0 _]; subst k; discriminate | exfalso; now apply (Hunp Cr)]. }
+        (* a remote operation in error: neither view changes, c0 was not and is not recorded as failed *)
+        split; intros c H.
+        -- destruct (N.eq_dec c c0) as [->|Hn]; [|apply (f_g1 _ _ M); now rewrite <- (failed_op_frame s s' c (Fr c Hn))].
+           rewrite (failed_op_frame _ _ _ Fd) in H. unfold failed_op in H. rewrite Ho', T', T1 in H. discriminate.
+        -- destruct (N.eq_dec c c0) as [->|Hn]; [|eapply nonremote_frame; [apply (Fr c Hn) | apply (f_g2 _ _ M c H)]].
+           destruct (f_g2 _ _ M c0 H) as (o2 & Ho2 & T2). rewrite Ho1 in Ho2. injection Ho2 as <-. congruence.
+      * apply (Hfail_case o' Ho' T' P'). intros T1. apply andb_false_iff in Cnd. destruct Cnd as [Ck|Cr]; [|rewrite (Hrem T1) in Cr; discriminate].
+        rewrite T1 in Hty1. destruct (ckd cl1) eqn:Kd; cbn in Hty1; try discriminate. rewrite Hk1 in Ck by discriminate. discriminate.
+    + (* the call returned without a transport fault *)
+      destruct (ckd cl1) eqn:Kd.
+      * destruct (Hk0 eq_refl) as [-> ->]. rewrite conn_pin_snd in Hres. rewrite (f_dm _ _ M). cbn [N.eqb andb].
+        assert (Ed : optN_eqb (aget c0 (dmobs s)) (Some 1) = match aget c0 (ipfs s) with Some false => true | _ => false end).
+        { unfold dmobs. rewrite aget_map_snd. destruct (aget c0 (ipfs s)) as [[|]|]; reflexivity. }
+        rewrite Ed. destruct (pdirect (opin o1)); cbn [N.eqb Pos.eqb andb negb] in *.
+        -- destruct (match aget c0 (ipfs s) with Some false => true | _ => false end); cbn [negb] in Hres.
+           ++ destruct Hres as (o' & Ho' & T' & P'). apply (Hfail_case o' Ho' T' P'). cbn in Hty1. congruence.
+           ++ now apply Hclean_case.
+        -- now apply Hclean_case.
+      * rewrite (Hk1 ltac:(discriminate)). cbn [N.eqb Pos.eqb andb]. now apply Hclean_case.
+      * rewrite (Hk1 ltac:(discriminate)). cbn [N.eqb Pos.eqb andb]. now apply Hclean_case.
+  - (* Daemon *) apply g_frame; [tauto|]. intros c. apply fs_other. rewrite Ee. exact Logic.I. Qed.
+End FStep.
